@@ -33,6 +33,10 @@
 
 
 
+#include <xalanc/DOMSupport/DOMServices.hpp>
+
+
+
 #include "XPathExecutionContext.hpp"
 
 
@@ -459,9 +463,38 @@ getOwner(const XalanNode&   node)
 {
     const XalanNode::NodeType   theType = node.getNodeType();
 
-    return theType == XalanNode::DOCUMENT_NODE ||
-           theType == XalanNode::DOCUMENT_FRAGMENT_NODE ?
-                &node : node.getOwnerDocument();
+    if (theType == XalanNode::DOCUMENT_NODE ||
+        theType == XalanNode::DOCUMENT_FRAGMENT_NODE)
+    {
+        return &node;
+    }
+    else
+    {
+        const XalanDocument* const  theOwnerDocument = node.getOwnerDocument();
+
+        if (theOwnerDocument == 0 ||
+            theOwnerDocument->getDocumentElement() != 0)
+        {
+            return theOwnerDocument;
+        }
+        else
+        {
+            // The owner document of the nodes of a result tree fragment
+            // is just a factory, which is shared by all fragments.  The
+            // tree the node belongs to is the one below its topmost
+            // ancestor, the document fragment node.
+            const XalanNode*    theRoot = &node;
+
+            for (const XalanNode* theParent = DOMServices::getParentOfNode(*theRoot);
+                    theParent != 0;
+                        theParent = DOMServices::getParentOfNode(*theRoot))
+            {
+                theRoot = theParent;
+            }
+
+            return theRoot;
+        }
+    }
 }
 
 
@@ -640,13 +673,8 @@ MutableNodeRefList::addNodeInDocOrder(
 
                 // Normalize so that if we have a document node, it owns
                 // itself, which is not how DOM works...
-                const XalanNode::NodeType   theFirstNodeType =
-                    theFirstNode->getNodeType();
-
                 const XalanNode* const  theFirstNodeOwner =
-                     theFirstNodeType == XalanNode::DOCUMENT_NODE ||
-                     theFirstNodeType == XalanNode::DOCUMENT_FRAGMENT_NODE ?
-                            theFirstNode : theFirstNode->getOwnerDocument();
+                     getOwner(*theFirstNode);
                 assert(theFirstNodeOwner != 0);
 
                 if (node->isIndexed() == true &&
@@ -656,12 +684,8 @@ MutableNodeRefList::addNodeInDocOrder(
                     // nodes from the same document.
                     // Normalize so that if we have a document node, it owns
                     // itself, which is not how DOM works...
-                    const XalanNode::NodeType   theLastNodeType =
-                            theLastNode->getNodeType();
                     const XalanNode* const  theLastNodeOwner =
-                        theLastNodeType == XalanNode::DOCUMENT_NODE ||
-                        theLastNodeType == XalanNode::DOCUMENT_FRAGMENT_NODE ?
-                                theLastNode : theLastNode->getOwnerDocument();
+                        getOwner(*theLastNode);
                     assert(theLastNodeOwner != 0);
 
                     // If the owner document is 0, then it's a document node, so there's not
